@@ -36,7 +36,7 @@ package limits
 //@   prop C11 C03
 //@   nopanic
 //@   requires groupOK(g) && ctx != nil
-//@   modifies L.held, BucketSet.holds
+//@   modifies limiters.L.held, limiters.BucketSet.holds
 //@   noframe
 //@   ensures result != nil ==> (forall k int :: 0 <= k && k < len(g.global.Wrapped) ==> g.global.Wrapped[k].held == old(g.global.Wrapped[k].held))
 //@   ensures result != nil ==> (forall k string :: ipHolds(g, k) == old(ipHolds(g, k)) && srcHolds(g, k) == old(srcHolds(g, k)))
@@ -51,7 +51,7 @@ package limits
 //@   requires groupOK(g)
 //@   requires forall k int :: 0 <= k && k < len(g.global.Wrapped) ==> g.global.Wrapped[k].held > 0
 //@   requires (g.ip != nil && g.ip.New != nil ==> g.ip.holds[ipStr(addr)] > 0) && (g.source != nil && g.source.New != nil ==> g.source.holds[sourceDomain] > 0)
-//@   modifies L.held, BucketSet.holds
+//@   modifies limiters.L.held, limiters.BucketSet.holds
 //@   noframe
 //@   ensures forall k int :: 0 <= k && k < len(g.global.Wrapped) ==> g.global.Wrapped[k].held == old(g.global.Wrapped[k].held) - 1
 //@   ensures ipHolds(g, ipStr(addr)) == old(ipHolds(g, ipStr(addr))) - (g.ip == nil || g.ip.New == nil ? 0 : 1)
@@ -61,7 +61,7 @@ package limits
 //@   prop C11 C05
 //@   nopanic
 //@   requires groupOK(g) && ctx != nil
-//@   modifies L.held, BucketSet.holds
+//@   modifies limiters.L.held, limiters.BucketSet.holds
 //@   noframe
 //@   ensures result != nil ==> (forall k string :: dstHolds(g, k) == old(dstHolds(g, k)))
 //@   ensures result == nil ==> dstHolds(g, domain) == old(dstHolds(g, domain)) + (g.dest == nil || g.dest.New == nil ? 0 : 1)
@@ -70,6 +70,6 @@ package limits
 //@   nopanic
 //@   requires groupOK(g)
 //@   requires g.dest != nil && g.dest.New != nil ==> g.dest.holds[domain] > 0
-//@   modifies L.held, BucketSet.holds
+//@   modifies limiters.L.held, limiters.BucketSet.holds
 //@   noframe
 //@   ensures dstHolds(g, domain) == old(dstHolds(g, domain)) - (g.dest == nil || g.dest.New == nil ? 0 : 1)
